@@ -29,7 +29,7 @@ RULE = ("scenario = one conversation (initialize + 1..5 list/call/read/get/ping/
         "several classes, 0..3 notifications before each response, string and integer ids) run over every carrier able to express it, with "
         "per-carrier nuisance (latency, chunking); non-trivial = at least two carriers ran and the conversation has a notification, an error "
         "reply, an integer id or non-ASCII payload")
-PROBES = ["slow_notification_transit_on_http", "over_100_notifications_in_session", "sse_event_before_202", "notifications_before_response", "error_reply", "int_id", "non_ascii_payload", "four_carriers", "nested_nulls"]
+PROBES = ["through_mcpclient", "slow_notification_transit_on_http", "over_100_notifications_in_session", "sse_event_before_202", "notifications_before_response", "error_reply", "int_id", "non_ascii_payload", "four_carriers", "nested_nulls"]
 TIERS = {"quick": {"runs": 3000, "wall": 45.0}, "thorough": {"runs": 80000, "wall": 560.0}}
 ASSUMPTIONS = ["fault-free by construction: only latency and chunking vary between carriers",
                "JSON-body HTTP runs only conversations without interleaved notifications (a single JSON object cannot express them)",
@@ -51,14 +51,17 @@ def generate(rng: random.Random, tier: str) -> dict:
         if h == "raw":
             e["id"] = rng.choice([f"raw-{k}", k + 10, f"{k + 10}", -k - 1, 2 ** 53 + k])
         ex.append(e)
-    return {"v": 1, "uuid_seed": rng.getrandbits(40), "exchanges": ex, "init": rng.random() < 0.8,
+    api = rng.choice(["helpers", "helpers", "mcpclient"])
+    return {"v": 1, "uuid_seed": rng.getrandbits(40), "exchanges": ex, "init": True if api == "mcpclient" else rng.random() < 0.8, "client_api": api,
             "nuisance": {"lat": rng.choice([0, 1, 20]), "chunk": rng.choice([None, 1, 5, 64]), "sse_chunk": rng.choice([None, 3, 16]),
                          "sse_post_lat": rng.choice([1, 1, 30, 200]), "sse_event_first": rng.random() < 0.4,
                          "notif_transit": rng.choice([0, 0, 40, 300])}}
 
 
 def simplify(scn):
-    if scn["init"]:
+    if scn.get("client_api") == "mcpclient":
+        c = copy.deepcopy(scn); c["client_api"] = "helpers"; yield c
+    if scn["init"] and scn.get("client_api") != "mcpclient":
         c = copy.deepcopy(scn); c["init"] = False; yield c
     n = scn["nuisance"]
     if n["lat"] or n["chunk"] or n["sse_chunk"] or n.get("sse_event_first") or n.get("notif_transit"):
@@ -180,6 +183,68 @@ async def _converse(sim, scn, read_stream, write_stream, st):
             await rr.receive()
 
 
+async def _converse_mcp(sim, scn, transport, st):
+    """the same conversation through the high-level MCPClient over a Transport object"""
+    sm = importlib.import_module("chuk_mcp.protocol.messages.send_message")
+    from chuk_mcp.client.connection import connect_to_server
+
+    orig = transport.get_streams
+
+    async def get_streams():
+        if "rr" not in st:
+            r, w = await orig()
+            st["rr"] = RecRecv(sim, r)
+            st["w"] = w
+        return st["rr"], st["w"]
+
+    transport.get_streams = get_streams
+    outcomes = st["outcomes"]
+
+    def norm(res):
+        if isinstance(res, list):
+            return [norm(x) for x in res]
+        if hasattr(res, "model_dump"):
+            return res.model_dump(by_alias=True)
+        return res
+
+    async def run(label, coro):
+        try:
+            outcomes.append((label, "ok", norm(await coro)))
+        except BaseException as e:  # noqa
+            outcomes.append((label, "raise", type(e).__name__, getattr(e, "code", None), str(e)[:200]))
+
+    try:
+        async with connect_to_server(transport) as client:
+            outcomes.append(("initialize", "ok", {"server": norm(client.server_info), "caps": norm(client.capabilities)}))
+            for k, e in enumerate(scn["exchanges"]):
+                h = e["helper"]
+                if h == "tools_list":
+                    await run(f"{k}:tools_list", client.list_tools())
+                elif h == "tools_call":
+                    await run(f"{k}:tools_call", client.call_tool("echo", {"text": e["text"]}))
+                elif h == "resources_read":
+                    await run(f"{k}:resources_read", client.read_resource("file:///x"))
+                elif h == "resources_list":
+                    await run(f"{k}:resources_list", client.list_resources())
+                elif h == "prompts_get":
+                    await run(f"{k}:prompts_get", client.get_prompt("p", {"a": e["text"]}))
+                elif h == "prompts_list":
+                    await run(f"{k}:prompts_list", client.list_prompts())
+                elif h == "ping":
+                    await run(f"{k}:ping", sm.send_message(st["rr"], st["w"], "ping", None, timeout=5.0))
+                else:
+                    await run(f"{k}:raw", sm.send_message(st["rr"], st["w"], "x/raw", {"q": e["text"]}, timeout=5.0, message_id=e["id"]))
+            with anyio.move_on_after(1.0):
+                while True:
+                    await st["rr"].receive()
+    except BaseException as e:  # noqa
+        outcomes.append(("connect", "raise", type(e).__name__, getattr(e, "code", None), str(e)[:200]))
+        if "rr" not in st:
+            class _Empty:
+                got = []
+            st["rr"] = _Empty()
+
+
 def _transcript(st):
     out = []
     for (_e, _t, _tn, m) in st["rr"].got:
@@ -215,8 +280,12 @@ def _run_stdio(scn):
 
         factory = ProcessFactory(sim, lambda idx, argv, env: {"read_mode": "eager", "responder": responder})
         with patched((anyio, "open_process", factory)):
-            async with stdio.stdio_client(StdioParameters(command="sim-child", args=[])) as (r, w):
-                await _converse(sim, scn, r, w, st)
+            if scn.get("client_api") == "mcpclient":
+                from chuk_mcp.transports.stdio.transport import StdioTransport
+                await _converse_mcp(sim, scn, StdioTransport(StdioParameters(command="sim-child", args=[])), st)
+            else:
+                async with stdio.stdio_client(StdioParameters(command="sim-child", args=[])) as (r, w):
+                    await _converse(sim, scn, r, w, st)
     return main, st
 
 
@@ -259,8 +328,12 @@ def _run_http(scn, sse_bodies: bool):
             transport.pre_delay = pre_delay
         Client = make_client_class(lambda: transport)
         with patched((httpx, "AsyncClient", Client)):
-            async with httpmod.http_client(StreamableHTTPParameters(url="http://sim.test/mcp", timeout=10.0)) as (r, w):
-                await _converse(sim, scn, r, w, st)
+            if scn.get("client_api") == "mcpclient":
+                from chuk_mcp.transports.http.transport import StreamableHTTPTransport
+                await _converse_mcp(sim, scn, StreamableHTTPTransport(StreamableHTTPParameters(url="http://sim.test/mcp", timeout=10.0)), st)
+            else:
+                async with httpmod.http_client(StreamableHTTPParameters(url="http://sim.test/mcp", timeout=10.0)) as (r, w):
+                    await _converse(sim, scn, r, w, st)
     return main, st
 
 
@@ -307,8 +380,12 @@ def _run_sse(scn):
         transport = SimHTTPTransport(sim, server)
         Client = make_client_class(lambda: transport)
         with patched((httpx, "AsyncClient", Client)):
-            async with ssemod.sse_client(SSEParameters(url="http://sim.test", timeout=10.0)) as (r, w):
-                await _converse(sim, scn, r, w, st)
+            if scn.get("client_api") == "mcpclient":
+                from chuk_mcp.transports.sse.transport import SSETransport
+                await _converse_mcp(sim, scn, SSETransport(SSEParameters(url="http://sim.test", timeout=10.0)), st)
+            else:
+                async with ssemod.sse_client(SSEParameters(url="http://sim.test", timeout=10.0)) as (r, w):
+                    await _converse(sim, scn, r, w, st)
     return main, st
 
 
@@ -359,6 +436,8 @@ def execute(scn: dict) -> dict:
                       rep.get("result") if "result" in rep else rep["error"]))
     ref = results["stdio"]
     for name, res in results.items():
+        if any(o[0] == "connect" and o[1] == "raise" for o in res["outcomes"]):
+            V("vs-conversation", f"{name}:connect-failed", f"{name}: connecting/initialising failed in a fault-free conversation: {res['outcomes'][-1]!r:.200}")
         # against the conversation (ids of helper exchanges are auto-generated: compare everything but their value)
         tr = res["transcript"]
         if len(tr) != len(exp_t):
@@ -382,7 +461,7 @@ def execute(scn: dict) -> dict:
             V("differential", f"{name}:helper-outcome", f"{name} and stdio give different helper outcomes at #{i}: {name}={res['outcomes'][i]!r:.200} stdio={ref['outcomes'][i]!r:.200}")
     # helper outcomes against the conversation
     base = 1 if scn["init"] else 0
-    for k, e in enumerate(scn["exchanges"]):
+    for k, e in enumerate(scn["exchanges"] if scn.get("client_api") != "mcpclient" else []):
         o = ref["outcomes"][base + k] if base + k < len(ref["outcomes"]) else None
         if o is None:
             continue
@@ -413,6 +492,8 @@ def execute(scn: dict) -> dict:
         probe("over_100_notifications_in_session")
     if len(results) == 4:
         probe("four_carriers")
+    if scn.get("client_api") == "mcpclient":
+        probe("through_mcpclient")
     if scn["nuisance"].get("sse_event_first") and scn["nuisance"].get("sse_post_lat", 1) > 1:
         probe("sse_event_before_202")
     out["nontrivial"] = len(results) >= 2 and any(out["probes"].get(p) for p in ("notifications_before_response", "error_reply", "int_id", "non_ascii_payload"))
